@@ -2,7 +2,7 @@
    Statements only; proofs are in Core/Lifecycle*_proofs.v.
 
    The model (Core/Lifecycle.v) is the code as fixed by the commits ce0c9d5, e732c3e, 3a27dcb,
-   eb0f53d and by fixes/C01-qid-before-send.patch ([cf_fix cf = all_fixed]); the behaviour of
+   eb0f53d, 8caadf2 ([cf_fix cf = all_fixed]); the behaviour of
    the pinned tree is refuted by the witnesses of Core/Lifecycle_refuted.v (last section).
 
    Scope of the general theorems (suffix _partial): histories whose requests are send / query /
